@@ -18,7 +18,7 @@ SWAP_CATALOGUE = ['y', 'b', 'n', 'q', 'i', 'u', 'x', 't', 'd', 'h', 's', 'g', 'a
                   '(yu)', '(yx)', 'a(yu)', 'aau', 'a{yu}', '(y(yu))', 'yh']
 BODYTUS = [dict(file=f) for f in (VAL, STR, REC, BASIC, SWAP, 'dbus/dbus-signature.c')]
 for _i, _sig in enumerate(SWAP_CATALOGUE):
-    _n = 6 if 'g' in _sig else (12 if any(c in _sig for c in 'so') else 16)   # signature-typed content is validated by the (costly) signature validator
+    _n = 6 if 'g' in _sig else (12 if (any(c in _sig for c in 'so') or _sig in ('a(yu)', 'a{yu}', 'aau')) else 16)   # signature-typed content is validated by the (costly) signature validator
     for _le, _tier in ((_i % 2, 'quick'), (1 - _i % 2, 'thorough')):
         UNITS.append(dict(name='C02.swap.%s.%s%d' % (_sig, 'le' if _le else 'be', _n), props=['C02', 'C10'], kind='B', route='plain',
                           tus=BODYTUS, harness='harness/c02_byteswap.c', extra_sources=[ASSERT, 'stubs/list_as_stack.c'],
